@@ -174,4 +174,40 @@ def run(ctx, tier):
             res_g.violations.append(Violation('C20', 'C20.goal', cname, 'floor',
                                               'no Goal impl found in %s (floor 1)' % cname))
     res_v.notes.append('impl counts: %s' % total)
-    return [res_v, res_g, res_s]
+    return [res_v, res_g, res_s, _no_exit(ctx)]
+
+
+def _no_exit(ctx):
+    """C20.exit - reporting a callback's exception must not be able to end the process.  `PyErr::print` (and
+    `print_and_set_sys_last_vars`) hand the exception to `PyErr_PrintEx`, which for a `SystemExit` prints nothing and
+    TERMINATES THE INTERPRETER with the exception's exit code: a callback that raises `SystemExit` inside a fault region
+    then kills the process instead of counting as "invalid" (the planner's result is no result at all).  Who-may-call rule
+    over every non-test function of the Python binding crate: these two functions are never called; `PyErr::display`,
+    `write_unraisable`, logging the `Display` form are the accepted ways to report."""
+    r = RuleResult('C20.exit', 'reporting a failed callback cannot terminate the process (no PyErr::print on a callback error)')
+    EXITING = ('pyo3::PyErr::print', 'pyo3::PyErr::print_and_set_sys_last_vars', 'pyo3::err::PyErr::print',
+               'pyo3::err::PyErr::print_and_set_sys_last_vars')
+    crate = ctx.py
+    if crate is None:
+        r.violations.append(Violation('C20', 'C20.exit', 'oxmpl-py', 'missing-crate', 'no facts for crate oxmpl-py (fail closed)'))
+        return r
+    n = 0
+    for b in crate.bodies:
+        if b.in_test_mod():
+            continue
+        n += 1
+        k = 0
+        for bi, t in b.calls():
+            pth = t['func'].get('path', '') or ''
+            if pth in EXITING:
+                r.inst('%s calls %s at %s' % (b.path, pth, b.loc(bi)), ok=False, site=b.loc(bi))
+                r.violations.append(Violation(
+                    'C20', 'C20.exit', b.path, pth.rsplit('::', 1)[1],
+                    'a callback error is reported with %s, which terminates the interpreter when the exception is a SystemExit: a callback '
+                    'raising SystemExit ends the process instead of counting as invalid / not satisfied / a failed sample' % pth,
+                    loc=b.loc(bi), ordinal=k))
+                k += 1
+    r.inst('who-may-call scan of %d functions of oxmpl-py for process-terminating error reporting' % n, ok=True, nontrivial=False)
+    if n < 100:
+        r.violations.append(Violation('C20', 'C20.exit', 'oxmpl-py', 'floor', 'only %d functions scanned (floor 100)' % n))
+    return r
